@@ -267,7 +267,15 @@ impl DocumentBuilder {
             self.name_id_builder.pop();
         }
         let closed_node_id = self.current_node_id;
-        self.current_node_id = current_node.parent().expect("Cannot close document node");
+        // a close tag without any open element (only possible in a fragment;
+        // in a document the tokenizer refuses it)
+        self.current_node_id = current_node.parent().ok_or_else(|| {
+            ParseError::InvalidCloseTag(
+                prefix.to_string(),
+                name.to_string(),
+                Span::from_prefix_name(prefix, name),
+            )
+        })?;
         Ok(closed_node_id)
     }
 
